@@ -42,10 +42,24 @@ def run_property(pid, repo, tier):
         if not ctx.violations:
             raise
         ctx.note(f"analysis stopped early: {e}")
-    except Exception:
-        if not ctx.violations:
+    except Exception as e:
+        # a rule written against the mechanism's shape (attribute of a node that is no longer there, an index into a list that
+        # became shorter) failed INSIDE a property module: the analysed construct no longer has the shape the mechanism had.  That is
+        # reported as a missing mechanism (like a floor), not as a checker failure; crashes inside the engine stay ANALYSIS-ERRORs.
+        tb = traceback.extract_tb(e.__traceback__)
+        inner = tb[-1] if tb else None
+        in_props = inner is not None and os.sep + "props" + os.sep in inner.filename
+        shape = isinstance(e, (AttributeError, IndexError, TypeError, KeyError, ValueError, AssertionError, StopIteration))
+        if in_props and shape:
+            rule_frame = next((f for f in reversed(tb) if os.sep + "props" + os.sep in f.filename), inner)
+            ctx.ob(f"{pid}-SHAPE", False, f"lbsa/props/{os.path.basename(rule_frame.filename)}:{rule_frame.lineno}",
+                   "every rule instance can be evaluated on the analysed code (the construct a rule inspects still has the shape of the mechanism)",
+                   detail=f"{type(e).__name__}: {e} while evaluating `{(rule_frame.line or '').strip()[:120]}` — the code this rule reads was restructured or removed; "
+                          f"remaining rule instances were not evaluated", key=f"{pid}-SHAPE|{os.path.basename(rule_frame.filename)}|{rule_frame.name}")
+        elif not ctx.violations:
             raise
-        ctx.note("analysis stopped early after reporting violations: " + traceback.format_exc(limit=3))
+        else:
+            ctx.note("analysis stopped early after reporting violations: " + traceback.format_exc(limit=3))
     if not ctx.obligations:
         raise AnalysisError(f"{pid}: no obligation was evaluated")
     known, new = report.split_known(pid, ctx.violations)
